@@ -93,10 +93,23 @@ fn exec_stopwatch_in(ops: &[Op], unwinding: bool, ts: &ManuallyAdvancedTimeSourc
 /// Where the object under test gets its time source from (last case argument, not read by the model):
 /// 0 = handed over explicitly; 1 = the ambient source: a thread-local override in force for the whole history;
 /// 2 = the same, created after an inner override by another clock has come and gone (its guard dropped);
-/// 3 = the same, the inner override being a `with_time_source` closure that has returned.
+/// 3 = the same, the inner override being a `with_time_source` closure that has returned;
+/// 4, 5 = a runtime-scoped override of the current tokio runtime (see below).
 fn with_ambient<T>(src: &TimeSource, placement: u64, f: impl FnOnce(Option<TimeSource>) -> T) -> T {
     if placement == 0 {
         return f(Some(src.clone()));
+    }
+    let decoy = || TimeSource::custom(ManuallyAdvancedTimeSource::at_time(UNIX_EPOCH + Duration::from_secs(86_400 * 365 * 20)));
+    if placement >= 4 {
+        // 4 = the runtime-scoped override of the tokio runtime the code runs in; 5 = the same after a thread-local
+        // override by another clock has come and gone inside the runtime
+        let rt = tokio::runtime::Builder::new_current_thread().build().unwrap();
+        let _rtg = metrique_timesource::tokio::set_time_source_for_runtime(rt.handle(), src.clone());
+        let _enter = rt.enter();
+        if placement == 5 {
+            drop(metrique_timesource::set_time_source(decoy()));
+        }
+        return f(None);
     }
     let _outer = metrique_timesource::set_time_source(src.clone());
     let decoy = || TimeSource::custom(ManuallyAdvancedTimeSource::at_time(UNIX_EPOCH + Duration::from_secs(86_400 * 365 * 20)));
@@ -283,7 +296,7 @@ pub fn run(ctx: &Ctx) {
             // the stopwatch created through the ambient time source (a thread-local override, possibly after an inner
             // override has come and gone)
             out.count("stopwatch_cases_on_the_ambient_time_source");
-            emit(&mut out, sx::tag(0, vec![Sx::L(ops.iter().map(enc_op).collect()), sx::boolean(false), sx::n(1 + rng.below(3))]));
+            emit(&mut out, sx::tag(0, vec![Sx::L(ops.iter().map(enc_op).collect()), sx::boolean(false), sx::n(1 + rng.below(5))]));
         }
     }
     for _ in 0..(nrand / 4) {
@@ -292,7 +305,7 @@ pub fn run(ctx: &Ctx) {
         let ops: Vec<Sx> = (0..len).map(|_| if rng.chance(1, 3) { sx::tag(1, vec![]) } else { sx::tag(0, vec![sx::n(rng.range(0, 5_000_000_000))]) }).collect();
         out.count("timer_cases");
         emit(&mut out, sx::tag(1, vec![sx::n(t0), Sx::L(ops.clone())]));
-        let pl = 1 + rng.below(3);
+        let pl = 1 + rng.below(5);
         out.count("timer_cases_on_the_ambient_time_source");
         emit(&mut out, sx::tag(1, vec![sx::n(t0), Sx::L(ops), sx::n(pl)]));
     }
@@ -306,9 +319,9 @@ pub fn run(ctx: &Ctx) {
         let (w0, w1) = (w(&mut rng), w(&mut rng));
         out.count("timestamp_cases");
         emit(&mut out, sx::tag(2, vec![sx::boolean(rng.chance(1, 2)), sx::z(w0), sx::z(w1)]));
-        let pl = 1 + rng.below(3);
+        let pl = 1 + rng.below(5);
         out.count("timestamp_cases_on_the_ambient_time_source");
         emit(&mut out, sx::tag(2, vec![sx::boolean(false), sx::z(w0), sx::z(w1), sx::n(pl)]));
     }
-    out.finish("stopwatch: every well-scoped operation sequence up to the tier's depth (exhaustive, one clock step size) plus random longer ones; timer: random advance/stop sequences; timestamps: random wall clocks (before the epoch, sub-microsecond, > 2^53 ns) for Timestamp and TimestampOnClose through the three epoch formatters; a third of the random stopwatch histories and every timer / Timestamp case again with the object created through the ambient time source (thread-local override alone, or after a nested override by another clock has ended). Non-trivial = at least one guard completion (stop/drop/overwrite/discard) resp. one timer stop; distinct by hash of the case");
+    out.finish("stopwatch: every well-scoped operation sequence up to the tier's depth (exhaustive, one clock step size) plus random longer ones; timer: random advance/stop sequences; timestamps: random wall clocks (before the epoch, sub-microsecond, > 2^53 ns) for Timestamp and TimestampOnClose through the three epoch formatters; a third of the random stopwatch histories and every timer / Timestamp case again with the object created through the ambient time source (thread-local override alone, after a nested override by another clock has ended, or a runtime-scoped override of the current tokio runtime). Non-trivial = at least one guard completion (stop/drop/overwrite/discard) resp. one timer stop; distinct by hash of the case");
 }
